@@ -7,13 +7,17 @@ Import-free (core Lean only), executable, total.  Mirrors `pyamg/multilevel.py`:
                "factor on first use, keep as attribute `P` / `LU` / `L`" for the direct solvers,
                a plain function of `(A, b)` for every other solver,
 * `grun`     = a history of calls on one coarse-solver object,
+* `LvlS`, `memoGet`, `memoSmoother`, `memoLevel` = levels whose smoothers keep state between calls
+               ("compute on first use, keep as attribute": `lvl.Acsr`, Schwarz parameters of
+               `strength_based_schwarz`),
 * `cycS`     = `MultilevelSolver.__solve(lvl, x, b, cycle, cycles_per_level)` (V, W, F, AMLI) with the
-               coarse-solver object as a *state machine* threaded through the recursion,
+               coarse-solver object and the smoothers as *state machines* threaded through the recursion,
 * `stepS`    = one pass of the `while True` loop of `solve` (one-level hierarchy: coarse solver on `(A, b)`),
 * `Prog`     = what one `solve` call does with the hierarchy: a program that may run `stepS` any number
                of times on vectors it computes from earlier answers (`loopProg` = the un-accelerated
                loop; an accelerated call applies `aspreconditioner(cycle).matvec`, i.e. one pass from the
-               zero vector, wherever the Krylov method asks for it),
+               zero vector, wherever the Krylov method asks for it; `accelCall`: the caller's
+               `cycles_per_level` does not reach the preconditioner),
 * `runCalls` = a history of `solve` calls on one `MultilevelSolver` object.
 
 Everything numerical (smoothers, residuals, transfer operators, the factorisation itself) is a
